@@ -143,8 +143,16 @@ impl Scenario for PairScenario {
                 ms: held,
             });
         }
+        if held == 0 && rng.chance(1, 4) {
+            // the synchronisation is requested while another request is in flight: it waits in the queue for about a round trip,
+            // which is no part of the propagation delay
+            script.push(POp::User(UserKind::ReadClasses(0x0F)));
+            if rng.bool() {
+                script.push(POp::Sleep(rng.range(0, f + b + 1)));
+            }
+        }
         script.push(POp::User(UserKind::TimeSync(proc)));
-        script.push(POp::Sleep(timeout * 2 + 2000));
+        script.push(POp::Sleep(timeout * 3 + 2000));
         // master clock: usually far from the end of the 48-bit range, sometimes so that the time to write just fits or just does not
         let approx_write = t_sync + 50 + rtt + rtt;
         mcfg.wall_clock_base = match rng.below(6) {
@@ -214,6 +222,7 @@ pub fn analyse_pair(
                 ms,
             } => hold_armed = *ms,
             POp::Cut { .. } | POp::Stall { .. } | POp::Disable => faults_before = true,
+            POp::User(k) if !matches!(k, UserKind::TimeSync(_)) => user_no += 1,
             POp::User(UserKind::TimeSync(proc)) => {
                 let id = user_no;
                 user_no += 1;
